@@ -116,6 +116,16 @@ def gen_calls(rng, P):
     # and the same vector again
     calls.append(("set", list(vals)))
     calls.append(("deriv", rng.randrange(P)))
+    # vectors that compare equal but are not the same: +0 / -0 in one slot ("parameters set on the model are returned unchanged" is
+    # judged bit for bit below)
+    z = [float(v) for v in vals]
+    j = rng.randrange(P)
+    for zero in (0.0, -0.0, 0.0, -0.0):
+        z = list(z)
+        z[j] = zero
+        calls.append(("set", z))
+        calls.append(("params",))
+    calls.append(("eval",))
     return calls
 
 
@@ -177,6 +187,16 @@ def main(tier, seed, replay=None):
         if r.get("timeout") or r.get("panic") is not None or not r["head"]["ok"]:
             run.violation("a valid builder program was rejected / panicked", {"names": names, "ops": ops, "result": r})
             continue
+        # parameters set on the model are returned unchanged: bit for bit (the integer-valued model below cannot tell +0 from -0)
+        sc_ = r.get("scalar_used") or ("f64" if r["head"]["init"] and r["head"]["init"][0][0] == "d" else "f32")
+        cur = None
+        for cl, cr in zip(calls, r["head"]["calls"]):
+            if cl[0] == "set" and cr["ok"]:
+                cur = [hx(float(v), sc_) for v in cl[1]]
+            elif cl[0] == "params" and cur is not None and cr["v"] != cur:
+                run.violation("parameters set on the model are not returned unchanged (bit for bit)",
+                              {"names": names, "ops": ops, "calls": calls, "set": cur, "returned": cr["v"]})
+                break
         try:
             t = mb.term(names, ops, calls, r)
         except ValueError as e:
